@@ -8,9 +8,9 @@
       sexp_read_char macro                     include/chibi/sexp.h:1661
       sexp_buffered_read_char                  sexp.c:1674-1722   (string / fd arms)
       sexp_push_char macro                     include/chibi/sexp.h:1662
-      sexp_read_utf8_char                      eval.c:2020-2036
-      sexp_push_utf8_char                      eval.c:2038-2049   (buffered arm)
-      SEXP_OP_READ_CHAR / SEXP_OP_PEEK_CHAR    vm.c:2260-2330
+      sexp_read_utf8_char                      eval.c:2036-2058
+      sexp_push_utf8_char                      eval.c:2060-2071   (buffered arm)
+      SEXP_OP_READ_CHAR / SEXP_OP_PEEK_CHAR    vm.c:2305-2376
       sexp_write_char macro                    include/chibi/sexp.h:1663
       sexp_buffered_write_char / _string_n     sexp.c:1724-1749
       sexp_buffered_flush (string-port arm)    sexp.c:1755-1802
@@ -56,22 +56,27 @@ Definition read_byte (p : iport) : Z * iport :=
                 else (-1, p')
        end.
 
-(** sexp_read_utf8_char (eval.c:2020-2036), [i] = the lead byte already read, >= 0x80.
-    EOF inside a sequence is not detected by the C: (-1 & 0x3F) = 0x3F, as here. *)
+(** sexp_read_utf8_char (eval.c:2036-2058, after "fix: ... a UTF-8 sequence cut off by end of input is an
+    error"), [i] = the lead byte already read, >= 0x80:
+      if (i < 0xC0 || i > 0xF7) -> exception "invalid utf8 byte"           (nothing more is consumed)
+      else i &= 0x3F / 0x1F / 0x0F; n = 1 / 2 / 3;
+           for ( ; n > 0; n--) { c = sexp_read_char(port);
+                                 if (c == EOF) -> exception "truncated utf8 sequence";   (the bytes read so far stay consumed)
+                                 i = (i<<6) + (c&0x3F); }
+    [None] = the exception.  The continuation bytes themselves are NOT validated (lenient decoder). *)
+Fixpoint read_cont (n : nat) (p : iport) (i : Z) : option Z * iport :=
+  match n with
+  | O => (Some i, p)
+  | S n' => let '(c, p1) := read_byte p in
+            if c =? -1 then (None, p1)
+            else read_cont n' p1 (Z.shiftl i 6 + Z.land c 63)
+  end.
+
 Definition read_utf8_char (p : iport) (i : Z) : option Z * iport :=
   if (i <? 192) || (247 <? i) then (None, p)
-  else if i <? 224 then
-    let '(b1, p1) := read_byte p in
-    (Some (Z.shiftl (Z.land i 63) 6 + Z.land b1 63), p1)
-  else if i <? 240 then
-    let '(b1, p1) := read_byte p in
-    let '(b2, p2) := read_byte p1 in
-    (Some (Z.shiftl (Z.land i 31) 12 + Z.shiftl (Z.land b1 63) 6 + Z.land b2 63), p2)
-  else
-    let '(b1, p1) := read_byte p in
-    let '(b2, p2) := read_byte p1 in
-    let '(b3, p3) := read_byte p2 in
-    (Some (Z.shiftl (Z.land i 15) 18 + Z.shiftl (Z.land b1 63) 12 + Z.shiftl (Z.land b2 63) 6 + Z.land b3 63), p3).
+  else if i <? 224 then read_cont 1 p (Z.land i 63)
+  else if i <? 240 then read_cont 2 p (Z.land i 31)
+  else read_cont 3 p (Z.land i 15).
 
 (** buf[--offset] = byte, for the bytes of [bs] from the last to the first; leaving the buffer at its
     front is an explicit error (the C would write before the buffer) *)
@@ -86,7 +91,7 @@ Definition push_utf8_char (p : iport) (c : Z) : res iport :=
 
 Inductive rd : Type := RChar (c : Z) | REof | RBad.
 
-(** SEXP_OP_READ_CHAR (vm.c:2260-2292) *)
+(** SEXP_OP_READ_CHAR (vm.c:2305-2340) *)
 Definition read_char (p : iport) : rd * iport :=
   let '(i, p1) := read_byte p in
   if i =? -1 then (REof, p1)
@@ -94,7 +99,8 @@ Definition read_char (p : iport) : rd * iport :=
     match read_utf8_char p1 i with (Some c, p2) => (RChar c, p2) | (None, p2) => (RBad, p2) end
   else (RChar i, p1).
 
-(** SEXP_OP_PEEK_CHAR (vm.c:2293-2330) *)
+(** SEXP_OP_PEEK_CHAR (vm.c:2341-2376): an exception from sexp_read_utf8_char is NOT pushed back
+    (if (!sexp_exceptionp(tmp1)) sexp_push_utf8_char(...)): the bytes it consumed stay consumed *)
 Definition peek_char (p : iport) : rd * iport :=
   let '(i, p1) := read_byte p in
   if i =? -1 then (REof, p1)
@@ -115,47 +121,54 @@ Definition open_string_port (bytes : list Z) : iport := mkport PString bytes 0 (
 Definition open_fd_port (bufsize : nat) (src : list Z) (sched : list nat) : iport :=
   mkport PFd (repeat 0 bufsize) bufsize bufsize src sched.
 
-(** %read-string (io.scm:114-123): until i = n or (peek-char in) is eof: (write-char (read-char in) out) *)
-Fixpoint read_string_loop (n : nat) (p : iport) (acc : list Z) : list Z * iport :=
+(** %read-string (io.scm:114-123): until i = n or (peek-char in) is eof: (write-char (read-char in) out).
+    An exception raised by peek-char / read-char (invalid lead byte, truncated sequence) leaves the loop:
+    [Err Utf8Err]; the characters read so far are lost with the local output port, the bytes stay consumed. *)
+Fixpoint read_string_loop (n : nat) (p : iport) (acc : list Z) : res (list Z) * iport :=
   match n with
-  | O => (rev acc, p)
+  | O => (Ok (rev acc), p)
   | S n' =>
       match peek_char p with
       | (RChar _, p1) =>
           match read_char p1 with
           | (RChar c, p2) => read_string_loop n' p2 (c :: acc)
-          | (_, p2) => (rev acc, p2)
+          | (REof, p2) => (Ok (rev acc), p2)
+          | (RBad, p2) => (Err Utf8Err, p2)
           end
-      | (_, p1) => (rev acc, p1)
+      | (REof, p1) => (Ok (rev acc), p1)
+      | (RBad, p1) => (Err Utf8Err, p1)
       end
   end.
-Definition read_string (n : nat) (p : iport) : list Z * iport := read_string_loop n p [].
+Definition read_string (n : nat) (p : iport) : res (list Z) * iport := read_string_loop n p [].
 
 (** %read-line (io.scm:63-88, non-stream arm), at most [n] characters, fuel = n + 1 iterations;
-    the flag says whether anything (a line, possibly empty) was read (#f -> eof-object) *)
-Fixpoint read_line_loop (fuel : nat) (i n : nat) (p : iport) (acc : list Z) : option (list Z) * iport :=
+    [Ok None] = nothing at all was read (#f -> eof-object), [Ok (Some l)] = a line (possibly empty),
+    [Err Utf8Err] = peek-char / read-char raised *)
+Fixpoint read_line_loop (fuel : nat) (i n : nat) (p : iport) (acc : list Z) : res (option (list Z)) * iport :=
   match fuel with
-  | O => (Some (rev acc), p)
+  | O => (Ok (Some (rev acc)), p)
   | S f =>
       match peek_char p with
-      | (REof, p1) => (match acc with [] => None | _ => Some (rev acc) end, p1)
-      | (RChar 10, p1) => let '(_, p2) := read_char p1 in (Some (rev acc), p2)
+      | (REof, p1) => (Ok (match acc with [] => None | _ => Some (rev acc) end), p1)
+      | (RChar 10, p1) => let '(_, p2) := read_char p1 in (Ok (Some (rev acc)), p2)
       | (RChar 13, p1) =>
           let '(_, p2) := read_char p1 in
           match peek_char p2 with
-          | (RChar 10, p3) => let '(_, p4) := read_char p3 in (Some (rev acc), p4)
-          | (_, p3) => (Some (rev acc), p3)
+          | (RChar 10, p3) => let '(_, p4) := read_char p3 in (Ok (Some (rev acc)), p4)
+          | (RBad, p3) => (Err Utf8Err, p3)
+          | (_, p3) => (Ok (Some (rev acc)), p3)
           end
       | (RChar _, p1) =>
-          if (n <=? i)%nat then (Some (rev acc), p1)
+          if (n <=? i)%nat then (Ok (Some (rev acc)), p1)
           else match read_char p1 with
                | (RChar c, p2) => read_line_loop f (S i) n p2 (c :: acc)
-               | (_, p2) => (Some (rev acc), p2)
+               | (REof, p2) => (Ok (Some (rev acc)), p2)
+               | (RBad, p2) => (Err Utf8Err, p2)
                end
-      | (RBad, p1) => (Some (rev acc), p1)
+      | (RBad, p1) => (Err Utf8Err, p1)
       end
   end.
-Definition read_line (n : nat) (p : iport) : option (list Z) * iport := read_line_loop (S n) 0 n p [].
+Definition read_line (n : nat) (p : iport) : res (option (list Z)) * iport := read_line_loop (S n) 0 n p [].
 
 (* ------------------------------------------------------------------------------------- *)
 (** * Output: string ports *)
